@@ -323,7 +323,7 @@ func c06Closure(ctx *Ctx, analyse func(q string) []string) {
 				continue
 			}
 			k++
-			if k%ctx.NShards != ctx.Shard || (!ctx.Thorough && (i+j)%3 != 0) {
+			if k%ctx.NShards != ctx.Shard {
 				continue
 			}
 			q := a + " " + b
